@@ -3,7 +3,7 @@
    never looked at). That memoisation is invisible in the verdicts of whole programs is carried by the abstraction
    differential on the implementation (DESIGN.md, C15). *)
 From GV.Model Require Import SEval PEval.
-From GV.Proofs Require Import VarProps MemoProps.
+From GV.Proofs Require Import VarProps MemoProps MemoErr.
 
 (* `let v = <literal>`: a reference resolves to exactly that literal, in every state, and leaves the state alone ... *)
 Theorem C15_literal_variable_resolves : forall r is_root root lets memo name v s,
@@ -101,3 +101,16 @@ Theorem C15_seval_is_simulated_by_peval : forall re conv prog, nc_prog prog = tr
   forall n, ev_sim prog (evalP re conv prog) (evalN re conv prog n).
 Proof. exact evalN_sim. Qed.
 Print Assumptions C15_seval_is_simulated_by_peval.
+
+(* memoisation is invisible for failures too: an evaluation error, a panic site or an oracle miss of the evaluator with
+   its caches is the failure of the memo-free evaluator (capture-free programs, every fuel) *)
+Theorem C15_failures_are_memo_free : forall re conv prog n doc ft,
+  nc_prog prog = true ->
+  fault_of (eval_file re conv prog n doc) = Some ft ->
+  Ev (fun k => fault_of (eval_file' re conv prog k doc) = Some ft).
+Proof. exact eval_file_fault_memo_free. Qed.
+Print Assumptions C15_failures_are_memo_free.
+Theorem C15_seval_is_simulated_by_peval_failures_included : forall re conv prog, nc_prog prog = true ->
+  forall n, ev_sim2 prog (evalP re conv prog) (evalN re conv prog n).
+Proof. exact evalN_sim2. Qed.
+Print Assumptions C15_seval_is_simulated_by_peval_failures_included.
